@@ -3,6 +3,7 @@ import Driver.Misc
 import Driver.Life
 import Driver.Net
 import Driver.Tls
+import Driver.Client
 /-
   Line-protocol driver: one case per input line, one output line `<model> ## <spec>` per case.
 -/
@@ -20,6 +21,7 @@ def runCase (line : String) : String :=
   | some "life" => let (m, s) := runLife tok; s!"{m} ## {s}"
   | some "net" => let (m, s) := runNet tok; s!"{m} ## {s}"
   | some "tls" => let (m, s) := runTls tok; s!"{m} ## {s}"
+  | some "cl" => let m := runCl tok; s!"{m} ## {m}"
   | some "rdr" => let (m, s) := runRdr tok; s!"{m} ## {s}"
   | some "srv" => let (m, s) := runSrv tok; s!"{m} ## {s}"
   | some other => s!"unknown-suite {other} ## unknown-suite {other}"
